@@ -6,6 +6,9 @@
      E <type> <id> <svc> <meth> <req> <resp> <err>   (rpc) encode; "~" = field absent
      PT <payload-hex> <ok:hex|fail>     (rpc) what protobuf's ParseFromArray says (environment)
      AD <spec>                          Adler-32
+     D <chunk-spec>                     (conn) one delivery on the connection: Buffer model + onMessage_buf +
+                                        defaultErrorCallback; (hsrv) HttpServer::onMessage with demo_callback
+     RESP <code> <msg> <close> <body> <k=v,...|->   HttpResponse::appendToBuffer
      end
    spec = hex | "-" | "@len:seed" | "#hh*count" *)
 let spec2 (s:string) : byte list =
@@ -29,28 +32,46 @@ let b01 b = if b then "1" else "0"
 let method_name (m: method0) = match m with
   | KInvalid -> "UNKNOWN" | KGet -> "GET" | KPost -> "POST" | KHead -> "HEAD" | KPut -> "PUT" | KDelete -> "DELETE"
 let version_num (v: version) = match v with KUnknown -> "0" | KHttp10 -> "1" | KHttp11 -> "2"
+let show_req (r: request) : string =
+  let hs = List.sort (fun (a,_) (b,_) -> compare (hex_of_bytes a) (hex_of_bytes b)) r.q_headers in
+  Printf.sprintf "req:%s:%s:%s:%s:%s" (method_name r.q_method) (version_num r.q_version)
+    (hex_or_dash r.q_path) (hex_or_dash r.q_query)
+    (join "," (fun (k,v) -> hex_or_dash k ^ "=" ^ hex_or_dash v) hs)
 let show_hev (e: hevent) : string = match e with
   | HBad -> "bad"
-  | HReq r ->
-      let hs = List.sort (fun (a,_) (b,_) -> compare (hex_of_bytes a) (hex_of_bytes b)) r.q_headers in
-      Printf.sprintf "req:%s:%s:%s:%s:%s" (method_name r.q_method) (version_num r.q_version)
-        (hex_or_dash r.q_path) (hex_or_dash r.q_query)
-        (join "," (fun (k,v) -> hex_or_dash k ^ "=" ^ hex_or_dash v) hs)
+  | HReq r -> show_req r
 let state_num (s: hstate) = match s with
   | KExpectRequestLine -> 0 | KExpectHeaders -> 1 | KExpectBody -> 2 | KGotAll -> 3
 let opt_field (s:string) : byte list option = if s = "~" then None else Some (spec2 s)
+let crc_len (l: byte list) : string = if l = [] then "-" else Printf.sprintf "%s:%d" (fnv_of_bytes l) (List.length l)
+(* RpcMessage payloads: C19_Wire.wire_parse; the canonical form of a parsed message is wire_ser of it *)
+let rpc_parse (p: byte list) : byte list option = match wire_parse p with Some m -> Some (wire_ser m) | None -> None
+let rpc_of_fields ty id svc meth req resp er : rpcmsg option =
+  match mtype_of_num (z_of_string ty) with
+  | None -> None
+  | Some t ->
+    let e = if er = "~" then Some None else (match err_of_num (z_of_string er) with Some x -> Some (Some x) | None -> None) in
+    (match e with
+     | None -> None
+     | Some eo -> Some { m_type = t; m_id = z_of_string id; m_service = opt_field svc; m_method = opt_field meth;
+                         m_request = opt_field req; m_response = opt_field resp; m_error = eo })
+let show_fill (r: buf res) : string = match r with
+  | Ok b -> Printf.sprintf "%s p=%d w=%d" (hex_of_bytes (readable b)) (int_of_nat (prependableBytes b)) (int_of_nat (writableBytes b))
+  | Rejected -> "rejected"
+  | Fault -> "FAULT"
+let kv_list (s: string) : (byte list * byte list) list =
+  if s = "-" then [] else
+  List.map (fun kv -> match String.split_on_char '=' kv with
+              | [k; v] -> (spec2 k, spec2 v) | _ -> failwith "bad k=v") (String.split_on_char ',' s)
 let () =
   let kind = ref "raw" in
   let tag = ref [] in
   let cst = ref codec_init in
   let hst = ref http_init in
-  let table : (string, byte list option) Hashtbl.t = Hashtbl.create 64 in
-  let missing = ref false in
-  let parse (p: byte list) : byte list option =
-    if !kind = "raw" then raw_parse p
-    else match Hashtbl.find_opt table (hex_or_dash p) with
-      | Some r -> r
-      | None -> missing := true; None in
+  let conn = ref (conn0 (nat_of_int 1024)) in
+  let sconn = ref sconn0 in
+  let dead = ref false in
+  let parse (p: byte list) : byte list option = if !kind = "raw" || !kind = "conn" then raw_parse p else rpc_parse p in
   (try while true do
     let line = input_line stdin in
     (match split_ws line with
@@ -58,7 +79,7 @@ let () =
     | "case" :: id :: k :: rest ->
         kind := k;
         tag := (match rest with t :: _ -> spec2 t | [] -> []);
-        cst := codec_init; hst := http_init; Hashtbl.reset table; missing := false;
+        cst := codec_init; hst := http_init; conn := conn0 (nat_of_int 1024); sconn := sconn0; dead := false;
         Printf.printf "case %s %s\n" id k
     | ["end"] -> print_string "end\n"
     | ["F"; d] when !kind = "http" ->
@@ -67,23 +88,47 @@ let () =
         Printf.printf "F %s r=%d ab=%s st=%d%s\n" (join ";" show_hev evs) (List.length st'.d_buf)
           (b01 st'.d_abandoned) (state_num st'.d_st.h_state) (if st'.d_oof then " OOF" else "")
     | ["F"; d] ->
-        missing := false;
         let (evs, st') = codec_feed parse !tag !cst (spec2 d) in
         cst := st';
-        Printf.printf "F %s r=%d ab=%s%s%s\n" (join ";" show_cev evs) (List.length st'.d_buf)
-          (b01 st'.d_abandoned) (if st'.d_oof then " OOF" else "") (if !missing then " MISSING-PT" else "")
-    | ["E"; d] -> Printf.printf "E %s\n" (hex_of_bytes (encode !tag (raw_ser (spec2 d))))
+        Printf.printf "F %s r=%d ab=%s%s\n" (join ";" show_cev evs) (List.length st'.d_buf)
+          (b01 st'.d_abandoned) (if st'.d_oof then " OOF" else "")
+    | ["D"; d] when !kind = "conn" ->
+        if !dead then print_string "D skipped\n" else
+        (match deliver parse !tag !conn (spec2 d) with
+         | Ok (evs, c') ->
+             conn := c';
+             Printf.printf "D %s r=%d conn=%s sh=%d\n" (join ";" show_cev evs) (List.length (readable c'.c_in))
+               (b01 c'.c_connected) (min 1 (int_of_nat c'.c_shutdowns))
+         | _ -> dead := true; print_string "D FAULT\n")
+    | ["D"; d] when !kind = "hsrv" ->
+        let (evs, c') = srv_deliver demo_callback !sconn (spec2 d) in
+        sconn := c';
+        let reqs = List.filter_map (fun e -> match e with SRequest r -> Some (show_req r) | _ -> None) evs in
+        let sent = List.concat (List.filter_map (fun e -> match e with SSend x -> Some x | _ -> None) evs) in
+        let oof = List.exists (fun e -> e = SOof) evs in
+        Printf.printf "D %s sent=%s r=%d conn=%s sh=%d st=%d%s\n" (if reqs = [] then "-" else String.concat ";" reqs)
+          (hex_or_dash sent) (List.length c'.s_buf) (b01 c'.s_connected) (min 1 (int_of_nat c'.s_shutdowns))
+          (state_num c'.s_ctx.h_state) (if oof then " OOF" else "")
+    | ["E"; d] -> Printf.printf "E %s\n" (show_fill (fillEmptyBuffer raw_ser !tag (spec2 d) (new_buf (nat_of_int 1024))))
     | ["E"; ty; id; svc; meth; req; resp; er] ->
-        let m = { rpc_type = z_of_string ty; rpc_id = z_of_string id; rpc_service = opt_field svc;
-                  rpc_method = opt_field meth; rpc_request = opt_field req; rpc_response = opt_field resp;
-                  rpc_error = (if er = "~" then None else Some (z_of_string er)) } in
-        Printf.printf "E %s\n" (hex_of_bytes (encode !tag (rpc_ser m)))
-    | "PT" :: p :: r :: _ ->
-        let v = if r = "fail" || r = "?" then None
-                else Some (spec2 (String.sub r 3 (String.length r - 3))) in
-        Hashtbl.replace table (hex_or_dash (spec2 p)) v;
-        Printf.printf "PT %s\n" r
+        (match rpc_of_fields ty id svc meth req resp er with
+         | Some m -> Printf.printf "E %s\n" (show_fill (fillEmptyBuffer wire_ser !tag m (new_buf (nat_of_int 1024))))
+         | None -> print_string "E not-an-enumerator\n")
+    | "PT" :: p :: _ ->
+        (match rpc_parse (spec2 p) with
+         | Some c -> Printf.printf "PT ok:%s\n" (hex_or_dash c)
+         | None -> print_string "PT fail\n")
     | ["AD"; d] -> Printf.printf "AD %s\n" (string_of_z (adler32 (spec2 d)))
+    | "RESP" :: code :: msg :: close :: body :: hs :: flags ->
+        let r = { rs_code = nat_of_int (int_of_string code); rs_msg = spec2 msg; rs_close = (close = "1");
+                  rs_headers = kv_list hs; rs_body = spec2 body } in
+        let bytes = response_bytes r in
+        (* a response the generator marks well-formed (no flag) must parse back under the reference grammar
+           to its own fields (C18_http_response_parses_back) *)
+        let ok = (match ref_parse_response bytes with
+                  | Some p -> p.pr_code = r.rs_code && p.pr_reason = r.rs_msg && p.pr_body = r.rs_body
+                  | None -> false) in
+        Printf.printf "RESP %s%s\n" (hex_of_bytes bytes) (if flags = [] && not ok then " REF-GRAMMAR-REJECTS" else "")
     | w -> failwith ("bad op: " ^ String.concat " " w));
     flush stdout
   done with End_of_file -> ())
